@@ -346,6 +346,11 @@ class Kernel:
             members = [p for p in self.procs.values() if p.pgid == pgid and p.state in ("running", "zombie")]
             if not members:
                 raise ProcessLookupError(errno.ESRCH, "No such process")
+            if any(p.script.get("other_user") for p in members if p.state == "running"):
+                # the task switched to another user (sudo, su, a setuid helper): signalling it is refused
+                for p in members:
+                    self.ev("kill_refused", pid=p.pid, task=p.task, sig=int(sig))
+                raise PermissionError(errno.EPERM, "Operation not permitted")
             for p in members:
                 self.ev("kill", pid=p.pid, task=p.task, sig=int(sig), state=p.state, via="killpg")
                 if p.state == "running":
